@@ -127,6 +127,8 @@ func (g *docGen) inline(depth int) string {
 	}
 }
 
+var rareTags = []string{"menu", "dir", "center", "marquee", "nobr", "details", "summary", "dialog", "dl", "address", "article", "section", "aside", "main", "header", "footer", "nav", "hgroup", "ruby", "bdi", "time", "mark", "meter", "output", "progress", "fieldset", "legend", "map", "canvas", "audio", "object", "applet", "noframes", "listing", "xmp", "big", "strike", "tt", "acronym", "s", "u", "kbd", "samp", "var", "cite", "dfn", "abbr", "q", "ins", "del", "small", "label", "button", "select", "datalist", "optgroup", "caption", "colgroup", "tbody", "thead", "tfoot", "th", "td", "tr", "li", "dt", "dd", "figcaption", "picture", "source", "track", "param", "slot", "template", "custom-element", "font", "basefont", "blink", "spacer", "image", "isindex", "keygen", "bgsound", "rb", "rtc", "rp"}
+
 var sprinkleClasses = []string{"comment", "sidebar", "footer", "share", "social", "sponsor", "related", "widget", "promo", "hidden", "caption", "byline", "article", "content", "main", "entry", "post", "text", "pager", "pagination", "meta", "tags", "breadcrumb", "banner", "ad-wrap", "print", "skyscraper", "disqus_thread", "community", "remark", "shopping", "tweet-box", "masthead", "outbrain", "popup"}
 
 // attrs sometimes returns a class and/or id attribute from a vocabulary the
@@ -343,11 +345,19 @@ func (g *docGen) figure() {
 		g.wf(`<picture><source srcset="/img/q%d.webp"></picture>`, g.tok)
 	}
 	if g.r.P(3, 4) {
-		g.w("<figcaption>" + g.words(g.r.Range(2, 12)))
+		g.w("<figcaption>")
+		if g.r.P(1, 5) {
+			g.f("figcaption-odd-children")
+			g.w(Pick(g.r, []string{`<noscript><img src="/img/cap.jpg"></noscript>`, `<script>x()</script>`, `<style>.c{}</style>`, `<span hidden>h</span>`, `<!-- c -->`, `<img src="/img/incap.png">`, `<svg><title>t</title></svg>`}))
+		}
+		g.w(g.words(g.r.Range(2, 12)))
 		if g.r.P(1, 3) {
 			g.wf(` <a href="/credit/%d">%s</a>`, g.tok, g.word())
 		}
 		g.w("</figcaption>")
+		if g.r.P(1, 6) {
+			g.w("<figcaption>" + g.words(3) + "</figcaption>") // a second caption
+		}
 	}
 	g.w("</figure>\n")
 }
@@ -708,6 +718,21 @@ func (g *docGen) head(host string) {
 		g.f("ie-reader-meta")
 		g.wf(`<meta name="Displaydate" content="March %d, 2014"><meta name="copyright" content="(c) %s">`, g.r.Range(1, 28), g.word())
 	}
+	if g.r.P(1, 5) {
+		// the same declarations more than once, with different values: first wins? last wins?
+		g.f("duplicate-metas")
+		for _, n := range []string{"copyright", "title", "Displaydate", "description", "author", "IE_RM_OFF", "keywords"} {
+			if g.r.Bool() {
+				g.wf(`<meta name="%s" content="%s"><meta name="%s" content="%s">`, n, Pick(g.r, []string{g.words(2), "true", "false"}), n, Pick(g.r, []string{g.words(2), "true", "false", ""}))
+			}
+		}
+		if g.r.Bool() {
+			g.wf(`<meta property="og:title" content="%s"><meta property="og:title" content="%s"><meta property="og:url" content="http://%s/dup1"><meta property="og:url" content="http://%s/dup2">`, g.words(3), g.words(3), host, host)
+		}
+		if g.r.P(1, 3) {
+			g.w("<title>" + g.words(4) + "</title>")
+		}
+	}
 	if g.r.P(1, 8) {
 		g.f("base-href")
 		g.wf(`<base href="%s">`, Pick(g.r, []string{"http://static.example.org/assets/", "/sub/dir/", "https://cdn.example.com/", "//other.example.net/x/", "javascript:void(0)", "", "../", "http://" + host + "/base/"}))
@@ -807,11 +832,36 @@ func (g *docGen) body(host string) string {
 		}
 		switch x := g.r.Intn(42); {
 		case x == 41:
-			if len(VocabNames) > 0 {
+			// an element with a rare / obsolete tag name, or one the library's own source names,
+			// holding structured children
+			g.f("rare-element")
+			tag := Pick(g.r, rareTags)
+			if len(VocabNames) > 0 && g.r.Bool() {
 				g.f("vocab-element")
-				tag := strings.ToLower(Pick(g.r, VocabNames))
-				g.wf("<%s%s>%s</%s>\n", tag, g.vocabAttrs(), g.words(g.r.Range(3, 30)), tag)
+				tag = strings.ToLower(Pick(g.r, VocabNames))
 			}
+			g.wf("<%s%s>", tag, g.vocabAttrs())
+			switch g.r.Intn(7) {
+			case 0:
+				g.w(g.words(g.r.Range(3, 30)))
+			case 1:
+				for i := 0; i < g.r.Range(1, 4); i++ {
+					g.w("<li>" + g.words(g.r.Range(3, 25)) + "</li>")
+				}
+			case 2:
+				g.paragraph()
+				g.paragraph()
+			case 3:
+				g.figure()
+			case 4:
+				g.wf(`<a href="/r/%d">%s</a> <img src="/img/r%d.png">`, g.tok, g.words(3), g.tok)
+			case 5:
+				inner := Pick(g.r, rareTags)
+				g.wf("<%s><li>%s</li><dt>%s</dt><dd>%s</dd></%s>", inner, g.words(8), g.word(), g.words(6), inner)
+			case 6:
+				g.list(1)
+			}
+			g.wf("</%s>\n", tag)
 		case x == 40:
 			g.deep()
 		case x < 18:
@@ -1347,4 +1397,20 @@ func coveringCorpus(maxDocs int) []GenDoc {
 		out = append(out, d)
 	}
 	return out
+}
+
+// IndexPage is one page with a very large number of distinct links and images:
+// whatever the library remembers per URL it must remember a lot of here.
+func IndexPage(links int) GenDoc {
+	var sb strings.Builder
+	sb.WriteString("<html><head><title>Index of everything</title></head><body><h1>Index</h1><p>")
+	for i := 0; i < 120; i++ {
+		fmt.Fprintf(&sb, "ix%d ", i)
+	}
+	sb.WriteString("</p>\n")
+	for i := 0; i < links; i++ {
+		fmt.Fprintf(&sb, `<p>entry %d words more <a href="/entry/%d?ref=%d">entry %d</a> <img src="/thumbs/%d.jpg"></p>`+"\n", i, i, i*7, i, i)
+	}
+	sb.WriteString(`<div class="pager"><a href="/index/1">1</a> <a href="/index/2">2</a> <a href="/index/3">3</a></div></body></html>`)
+	return GenDoc{Bytes: []byte(sb.String()), URL: "http://example.com/index/2", Origin: fmt.Sprintf("indexpage:%d", links), Features: []string{"index-page"}, UTF8: true}
 }
